@@ -133,9 +133,17 @@ def work(item):
     s.set("timeout", 20000)
     for c in legal:
         s.add(c)
+
+    def chk():
+        import time
+        t = time.time()
+        r = str(s.check())
+        st["solver_time"] += time.time() - t
+        st["queries"] += 1
+        return r
     s.push()
     s.add(phi_e)
-    sat_e = str(s.check())
+    sat_e = chk()
     best = None
     if sat_e == "sat":
         # the optimum itself is not computed by enumeration: obligations are existential queries
@@ -196,12 +204,12 @@ def work(item):
         for c in asg:
             s.add(c)
         s.add(z3.Not(phi_e))
-        r1 = str(s.check())
+        r1 = chk()
         s.pop()
         s.push()
         for c in asg:
             s.add(c)
-        r0 = str(s.check())
+        r0 = chk()
         s.pop()
         if r0 == "unsat":
             st.ob("refuted", key=okey + ":consistent")
@@ -238,7 +246,7 @@ def work(item):
         hi = z3.RealVal(str(pq * (1 + Fraction(tau)) + Fraction(1, 10 ** 12)))
         s.push()
         s.add(z3.Or(cube > hi, cube < lo))
-        r2 = str(s.check())
+        r2 = chk()
         s.pop()
         if r2 == "sat":
             st.ob("refuted", key=okey + ":prob")
@@ -251,7 +259,7 @@ def work(item):
         s.push()
         s.add(phi_e)
         s.add(W > W_ret * z3.RealVal(str(1 + Fraction(tau))) + z3.RealVal(str(Fraction(1, 10 ** 12))))
-        r3 = str(s.check())
+        r3 = chk()
         if r3 == "sat":
             m = s.model()
             better = sorted(n for n, v in atom_var.items() if z3.is_true(m.eval(v, model_completion=True)))
